@@ -15,7 +15,10 @@ BOUNDED: list[str] = []
 
 
 def specs(tier):
-    return [*g.stack_terminals(), *g.backtracking()]
+    from . import templates as t
+
+    tpl = [*t.stack_templates(), *t.stack_loop_templates(), *[x for x in t.combinator_templates(3) if "Sequence" not in x.label and "Group" not in x.label], *t.loop_templates()]
+    return [*g.stack_terminals(), *g.backtracking(), *tpl]
 
 from .groups import concretise_ops
 concretise = concretise_ops(PROPERTY)
